@@ -236,3 +236,432 @@ Proof.
       rewrite L by (unfold small62; lia).
       destruct (rot_front_to_back 0 _ _ _ _ _) as [[[b h] t]|]; reflexivity.
 Qed.
+
+(* ------------------------------------------------------------------ push / pop / grow / shrink
+   Deque.resize, growIfFull, shrinkIfExcess, PushBack, PushFront, PopFront, PopBack, translated
+   whole (Generated/Deque.v: make, copy, the slices of q.buf and the writes to q.buf, q.head,
+   q.tail, q.count, q.minCap), are the model's functions at A := Z, nilv := 0: the source
+   panics (index / slice out of range, negative make, the explicit panics of the empty deque)
+   exactly when the model says None (OCrash / OPanic), and otherwise leaves the fields of the
+   model's deque. *)
+
+Definition small61 (x : Z) : Prop := - 2 ^ 61 < x < 2 ^ 61.
+
+Definition lift_d {X} (f : @deque Z -> X) (r : option (@deque Z)) : outcome X :=
+  match r with Some d => Ok (f d) | None => Panic end.
+
+Lemma make_src n : go_make n = match make 0 n with Some l => Ok l | None => Panic end.
+Proof.
+  unfold go_make, make, go_zeros. destruct (Z.ltb_spec n 0), (Z.leb_spec 0 n); try lia; reflexivity.
+Qed.
+
+Lemma slice_src (l : list Z) a b : go_slice l a b = match slice l a b with Some s => Ok s | None => Panic end.
+Proof. unfold go_slice, slice, go_len, zlen. destruct ((0 <=? a) && (a <=? b) && (b <=? Z.of_nat (length l))); reflexivity. Qed.
+
+Lemma slice_from_src (l : list Z) a :
+  go_slice_from l a = match slice l a (zlen l) with Some s => Ok s | None => Panic end.
+Proof.
+  unfold go_slice_from, slice, go_len, zlen.
+  destruct (Z.leb_spec 0 a); cbn [andb]; [|reflexivity].
+  destruct (Z.leb_spec a (Z.of_nat (length l))); cbn [andb]; [|reflexivity].
+  rewrite Z.leb_refl. f_equal. rewrite firstn_all2; [reflexivity|]. rewrite skipn_length. lia.
+Qed.
+
+Lemma copy_src (dst src : list Z) : go_copy dst src = (copy_into dst src, Z.of_nat (Nat.min (length dst) (length src))).
+Proof. reflexivity. Qed.
+
+Lemma copy_into_length (dst src : list Z) : length (copy_into dst src) = length dst.
+Proof. unfold copy_into. rewrite app_length, firstn_length, skipn_length. lia. Qed.
+
+Lemma src_resize (d : @deque Z) : small61 (count d) ->
+  go_Deque_resize (head d) (tail d) (buf d) (count d) = lift_d (fun d' => (head d', tail d', buf d')) (resize 0 d).
+Proof.
+  unfold small61. change (2 ^ 61) with 2305843009213693952. intros Hc.
+  unfold go_Deque_resize, resize. cbv zeta.
+  rewrite Z.shiftl_mul_pow2 by lia. change (2 ^ 1) with 2. rewrite (wrap64 (count d * 2)) by lia.
+  rewrite make_src. unfold Model.bind. destruct (make 0 (count d * 2)) as [nb|]; [|reflexivity]. cbn [bind].
+  destruct (tail d >? head d).
+  - rewrite slice_src. destruct (slice (buf d) (head d) (tail d)) as [s|]; [|reflexivity]. cbn [bind].
+    rewrite copy_src. reflexivity.
+  - rewrite slice_from_src. fold (cap d). destruct (slice (buf d) (head d) (cap d)) as [s1|]; [|reflexivity]. cbn [bind].
+    rewrite copy_src. cbv zeta.
+    assert (Hmin : 0 <= Z.of_nat (Nat.min (length nb) (length s1)) <= go_len (copy_into nb s1)).
+    { unfold go_len. rewrite copy_into_length. split; [lia|]. apply inj_le. apply Nat.le_min_l. }
+    rewrite go_slice_from_ok by exact Hmin.
+    cbn [bind]. rewrite Nat2Z.id.
+    rewrite slice_src. destruct (slice (buf d) 0 (tail d)) as [s2|]; [|reflexivity]. cbn [bind].
+    rewrite copy_src. cbn [lift_d head tail buf].
+    unfold go_splice. rewrite Nat2Z.id. rewrite copy_into_length, skipn_length.
+    set (m := Nat.min (length nb) (length s1)). assert (Hm : (m <= length nb)%nat) by apply Nat.le_min_l.
+    replace (skipn (m + (length (copy_into nb s1) - m)) (copy_into nb s1)) with (@nil Z)
+      by (symmetry; apply skipn_all2; rewrite copy_into_length; clearbody m; clear - Hm; lia).
+    rewrite app_nil_r. reflexivity.
+Qed.
+
+Lemma cap_len (d : @deque Z) : go_len (buf d) = cap d.
+Proof. reflexivity. Qed.
+
+Lemma resize_keeps (d d' : @deque Z) : resize 0 d = Some d' -> count d' = count d /\ minCap d' = minCap d.
+Proof.
+  unfold resize, Model.bind. destruct (make 0 (count d * 2)) as [nb|]; [|discriminate].
+  destruct (tail d >? head d).
+  - destruct (slice (buf d) (head d) (tail d)); [|discriminate]. intros H. injection H as <-. split; reflexivity.
+  - destruct (slice (buf d) (head d) (cap d)); [|discriminate].
+    destruct (slice (buf d) 0 (tail d)); [|discriminate]. intros H. injection H as <-. split; reflexivity.
+Qed.
+
+Lemma src_grow (d : @deque Z) : small61 (count d) ->
+  go_Deque_growIfFull (minCap d) (buf d) (head d) (tail d) (count d) =
+  lift_d (fun d' => (minCap d', buf d', head d', tail d')) (grow_if_full 0 d).
+Proof.
+  intros Hc. unfold go_Deque_growIfFull, grow_if_full. rewrite !cap_len. cbv zeta.
+  destruct (count d =? cap d); cbn [negb]; [|destruct d; reflexivity].
+  destruct (cap d =? 0).
+  - change collections_queue_minCapacity with 16.
+    rewrite make_src. unfold Model.bind.
+    destruct (make 0 (if minCap d =? 0 then 16 else minCap d)) as [b|]; reflexivity.
+  - rewrite src_resize by assumption. destruct (resize 0 d) as [d'|] eqn:E; [|reflexivity].
+    cbn [lift_d bind]. destruct (resize_keeps d d' E) as [_ ->]. reflexivity.
+Qed.
+
+Lemma grow_keeps (d d1 : @deque Z) : grow_if_full 0 d = Some d1 -> count d1 = count d.
+Proof.
+  unfold grow_if_full, Model.bind. destruct (negb (count d =? cap d)); [intros H; injection H as <-; reflexivity|].
+  destruct (cap d =? 0).
+  - destruct (make 0 _); [|discriminate]. intros H. injection H as <-. reflexivity.
+  - intros H. apply (resize_keeps d d1 H).
+Qed.
+
+Lemma src_shrink (d : @deque Z) : small61 (count d) ->
+  go_Deque_shrinkIfExcess (head d) (tail d) (buf d) (minCap d) (count d) =
+  lift_d (fun d' => (head d', tail d', buf d')) (shrink_if_excess 0 d).
+Proof.
+  unfold small61. change (2 ^ 61) with 2305843009213693952. intros Hc.
+  unfold go_Deque_shrinkIfExcess, shrink_if_excess. rewrite !cap_len.
+  rewrite Z.shiftl_mul_pow2 by lia. change (2 ^ 2) with 4. rewrite (wrap64 (count d * 4)) by lia.
+  destruct ((cap d >? minCap d) && (count d * 4 =? cap d)).
+  - rewrite src_resize by (unfold small61; change (2 ^ 61) with 2305843009213693952; lia).
+    destruct (resize 0 d) as [d'|]; reflexivity.
+  - destruct d; reflexivity.
+Qed.
+
+Lemma shrink_keeps (d d2 : @deque Z) : shrink_if_excess 0 d = Some d2 -> count d2 = count d /\ minCap d2 = minCap d.
+Proof.
+  unfold shrink_if_excess. destruct ((cap d >? minCap d) && (count d * 4 =? cap d)).
+  - apply resize_keeps.
+  - intros H. injection H as <-. split; reflexivity.
+Qed.
+
+(* PushBack / PushFront: the fields afterwards, in the order the translation returns them *)
+Definition push_fields (d : @deque Z) := (minCap d, buf d, head d, tail d, count d).
+
+Lemma next_src (d : @deque Z) i : cap d < 2 ^ 62 -> small61 i -> go_Deque_next (go_len (buf d)) i = next d i.
+Proof.
+  unfold small61. intros Hc Hi. rewrite cap_len. apply src_next; change (2 ^ 63) with 9223372036854775808;
+    change (2 ^ 62) with 4611686018427387904 in *; change (2 ^ 61) with 2305843009213693952 in *; lia.
+Qed.
+
+Lemma prev_src (d : @deque Z) i : cap d < 2 ^ 62 -> small61 i -> go_Deque_prev (go_len (buf d)) i = prev d i.
+Proof.
+  unfold small61. intros Hc Hi. rewrite cap_len. apply src_prev; change (2 ^ 63) with 9223372036854775808;
+    change (2 ^ 62) with 4611686018427387904 in *; change (2 ^ 61) with 2305843009213693952 in *; lia.
+Qed.
+
+Lemma make_len n l : make 0 n = Some l -> zlen l = Z.max 0 n.
+Proof.
+  unfold make. destruct (Z.leb_spec 0 n) as [Hn|Hn]; [|discriminate]. intros E. injection E as <-.
+  unfold zlen. rewrite repeat_length. lia.
+Qed.
+
+Lemma resize_cap (d d' : @deque Z) : resize 0 d = Some d' -> cap d' = Z.max 0 (count d * 2).
+Proof.
+  unfold resize, Model.bind. destruct (make 0 (count d * 2)) as [nb|] eqn:M; [|discriminate].
+  pose proof (make_len _ _ M) as L. unfold zlen in L.
+  destruct (tail d >? head d).
+  - destruct (slice (buf d) (head d) (tail d)); [|discriminate]. intros H. injection H as <-.
+    unfold cap, zlen. cbn [buf]. rewrite copy_into_length. exact L.
+  - destruct (slice (buf d) (head d) (cap d)) as [s1|]; [|discriminate].
+    destruct (slice (buf d) 0 (tail d)) as [s2|]; [|discriminate]. intros H. injection H as <-.
+    unfold cap, zlen. cbn [buf]. rewrite app_length, firstn_length, !copy_into_length, skipn_length, copy_into_length.
+    pose proof (Nat.le_min_l (length nb) (length s1)) as Hmin. lia.
+Qed.
+
+Lemma grow_cap (d d1 : @deque Z) : grow_if_full 0 d = Some d1 ->
+  cap d < 2 ^ 62 -> minCap d < 2 ^ 62 -> small61 (count d) -> cap d1 < 2 ^ 62.
+Proof.
+  unfold small61. change (2 ^ 62) with 4611686018427387904. change (2 ^ 61) with 2305843009213693952.
+  intros G Hc Hm Hn. unfold grow_if_full, Model.bind in G.
+  destruct (negb (count d =? cap d)); [injection G as <-; assumption|].
+  destruct (cap d =? 0).
+  - destruct (make 0 _) as [b|] eqn:M; [|discriminate]. injection G as <-.
+    unfold cap. cbn [buf]. rewrite (make_len _ _ M). change collections_queue_minCapacity with 16.
+    destruct (minCap d =? 0); lia.
+  - rewrite (resize_cap d d1 G). lia.
+Qed.
+
+Lemma src_push_back (d : @deque Z) a :
+  cap d < 2 ^ 62 -> minCap d < 2 ^ 62 -> small61 (count d) -> small61 (tail d) ->
+  go_Deque_PushBack (minCap d) (buf d) (head d) (tail d) (count d) a = lift_d push_fields (push_back 0 d a).
+Proof.
+  intros Hc Hm Hn Ht. unfold go_Deque_PushBack, push_back, Model.bind.
+  rewrite src_grow by assumption.
+  destruct (grow_if_full 0 d) as [d1|] eqn:G; [|reflexivity]. cbn [lift_d bind].
+  rewrite setz_update. destruct (setz (buf d1) (tail d1) a) as [b|] eqn:S; [|reflexivity]. cbn [bind lift_d push_fields].
+  pose proof (grow_cap d d1 G Hc Hm Hn) as Hc1. pose proof (grow_keeps d d1 G) as Hk.
+  assert (R : 0 <= tail d1 < cap d1).
+  { unfold setz in S. destruct ((0 <=? tail d1) && (tail d1 <? zlen (buf d1))) eqn:E; [|discriminate].
+    apply andb_prop in E. destruct E as [E1 E2]. apply Z.leb_le in E1. apply Z.ltb_lt in E2. unfold cap. lia. }
+  unfold go_len. fold (zlen b). rewrite (setz_length _ _ _ _ S). fold (cap d1).
+  change (2 ^ 62) with 4611686018427387904 in *. unfold small61 in *. change (2 ^ 61) with 2305843009213693952 in *.
+  rewrite (src_next d1 (tail d1)) by (change (2 ^ 63) with 9223372036854775808; lia).
+  rewrite (wrap64 (count d + 1)) by lia. rewrite Hk. reflexivity.
+Qed.
+
+Lemma src_push_front (d : @deque Z) a :
+  cap d < 2 ^ 62 -> minCap d < 2 ^ 62 -> small61 (count d) -> small61 (head d) ->
+  go_Deque_PushFront (minCap d) (buf d) (head d) (tail d) (count d) a = lift_d push_fields (push_front 0 d a).
+Proof.
+  intros Hc Hm Hn Hh. unfold go_Deque_PushFront, push_front, Model.bind.
+  rewrite src_grow by assumption.
+  destruct (grow_if_full 0 d) as [d1|] eqn:G; [|reflexivity]. cbn [lift_d bind]. cbv zeta.
+  pose proof (grow_cap d d1 G Hc Hm Hn) as Hc1. pose proof (grow_keeps d d1 G) as Hk.
+  assert (Hh1 : small61 (head d1)).
+  { unfold grow_if_full, Model.bind in G. destruct (negb (count d =? cap d)); [injection G as <-; assumption|].
+    destruct (cap d =? 0).
+    - destruct (make 0 _); [|discriminate]. injection G as <-. assumption.
+    - unfold resize, Model.bind in G. destruct (make 0 _); [|discriminate].
+      destruct (tail d >? head d).
+      + destruct (slice _ _ _); [|discriminate]. injection G as <-. unfold small61. cbn. lia.
+      + destruct (slice _ _ _); [|discriminate]. destruct (slice _ _ _); [|discriminate]. injection G as <-. unfold small61. cbn. lia. }
+  change (2 ^ 62) with 4611686018427387904 in *. unfold small61 in *. change (2 ^ 61) with 2305843009213693952 in *.
+  rewrite cap_len. rewrite (src_prev d1 (head d1)) by (change (2 ^ 63) with 9223372036854775808; lia).
+  rewrite setz_update. destruct (setz (buf d1) (prev d1 (head d1)) a) as [b|]; [|reflexivity]. cbn [bind lift_d push_fields].
+  rewrite (wrap64 (count d + 1)) by lia. rewrite Hk. reflexivity.
+Qed.
+
+(* PopFront / PopBack: the element, then the fields in the order the translation returns them;
+   the explicit panic of the empty deque is the model's step (count <= 0: OPanic) *)
+Lemma src_pop_front (d : @deque Z) :
+  cap d < 2 ^ 62 -> small61 (count d) -> small61 (head d) -> 0 < count d ->
+  go_Deque_PopFront (buf d) (head d) (count d) (tail d) (minCap d) =
+  match pop_front 0 d with
+  | Some (d2, ret) => Ok (ret, buf d2, head d2, count d2, tail d2)
+  | None => Panic
+  end.
+Proof.
+  intros Hc Hn Hh Hpos. unfold go_Deque_PopFront, pop_front, Model.bind.
+  destruct (Z.leb_spec (count d) 0); [lia|].
+  rewrite getz_index. destruct (getz (buf d) (head d)) as [ret|]; [|reflexivity]. cbn [bind].
+  rewrite setz_update. destruct (setz (buf d) (head d) 0) as [b|] eqn:S; [|reflexivity]. cbn [bind].
+  unfold go_len. fold (zlen b). rewrite (setz_length _ _ _ _ S). fold (cap d).
+  change (2 ^ 62) with 4611686018427387904 in *. unfold small61 in *. change (2 ^ 61) with 2305843009213693952 in *.
+  rewrite (src_next d (head d)) by (change (2 ^ 63) with 9223372036854775808; lia).
+  rewrite (wrap64 (count d - 1)) by lia.
+  set (d' := mkDeque b (next d (head d)) (tail d) (count d - 1) (minCap d)).
+  change (go_Deque_shrinkIfExcess (next d (head d)) (tail d) b (minCap d) (count d - 1))
+    with (go_Deque_shrinkIfExcess (head d') (tail d') (buf d') (minCap d') (count d')).
+  rewrite src_shrink by (unfold small61, d'; cbn [count]; change (2 ^ 61) with 2305843009213693952; lia).
+  destruct (shrink_if_excess 0 d') as [d2|] eqn:E; [|reflexivity]. cbn [lift_d bind].
+  destruct (shrink_keeps d' d2 E) as [-> _]. reflexivity.
+Qed.
+
+Lemma src_pop_back (d : @deque Z) :
+  cap d < 2 ^ 62 -> small61 (count d) -> small61 (tail d) -> 0 < count d ->
+  go_Deque_PopBack (tail d) (buf d) (count d) (head d) (minCap d) =
+  match pop_back 0 d with
+  | Some (d2, ret) => Ok (ret, tail d2, buf d2, count d2, head d2)
+  | None => Panic
+  end.
+Proof.
+  intros Hc Hn Ht Hpos. unfold go_Deque_PopBack, pop_back, Model.bind. cbv zeta.
+  destruct (Z.leb_spec (count d) 0); [lia|].
+  change (2 ^ 62) with 4611686018427387904 in *. unfold small61 in *. change (2 ^ 61) with 2305843009213693952 in *.
+  rewrite cap_len. rewrite (src_prev d (tail d)) by (change (2 ^ 63) with 9223372036854775808; lia).
+  rewrite getz_index. destruct (getz (buf d) (prev d (tail d))) as [ret|]; [|reflexivity]. cbn [bind].
+  rewrite setz_update. destruct (setz (buf d) (prev d (tail d)) 0) as [b|] eqn:S; [|reflexivity]. cbn [bind].
+  rewrite (wrap64 (count d - 1)) by lia.
+  set (d' := mkDeque b (head d) (prev d (tail d)) (count d - 1) (minCap d)).
+  change (go_Deque_shrinkIfExcess (head d) (prev d (tail d)) b (minCap d) (count d - 1))
+    with (go_Deque_shrinkIfExcess (head d') (tail d') (buf d') (minCap d') (count d')).
+  rewrite src_shrink by (unfold small61, d'; cbn [count]; change (2 ^ 61) with 2305843009213693952; lia).
+  destruct (shrink_if_excess 0 d') as [d2|] eqn:E; [|reflexivity]. cbn [lift_d bind].
+  destruct (shrink_keeps d' d2 E) as [-> _]. reflexivity.
+Qed.
+
+(* ------------------------------------------------------------------ the other calls, and step
+   Front, Back, At, Set, Clear (its loop), SetMinCapacity; then every operation of the model's
+   [step] at once *)
+Lemma src_shl1 e : 0 <= e ->
+  (Z.shiftl 1 (Z.min e 64) + 9223372036854775808) mod 18446744073709551616 - 9223372036854775808 = shl1 e.
+Proof.
+  intros He. unfold shl1. rewrite Z.shiftl_1_l.
+  destruct (Z.ltb_spec e 63) as [Hlt|Hge].
+  - replace (0 <=? e) with true by (symmetry; apply Z.leb_le; lia). cbn [andb].
+    rewrite Z.min_l by lia.
+    assert (0 < 2 ^ e) by (apply Z.pow_pos_nonneg; lia).
+    assert (2 ^ e < 2 ^ 63) by (apply Z.pow_lt_mono_r; lia).
+    change (2 ^ 63) with 9223372036854775808 in *. apply wrap64. lia.
+  - rewrite andb_false_r. destruct (Z.eqb_spec e 63) as [->|Hne]; [reflexivity|].
+    rewrite Z.min_r by lia. reflexivity.
+Qed.
+
+Lemma src_set_min_cap (d : @deque Z) e : 0 <= e ->
+  go_Deque_SetMinCapacity (minCap d) e = minCap (set_min_cap d e).
+Proof.
+  intros He. unfold go_Deque_SetMinCapacity, set_min_cap. cbv zeta. cbn [minCap].
+  rewrite src_shl1 by assumption. reflexivity.
+Qed.
+
+Lemma clear_loop_spec m t : 0 <= m < 2 ^ 62 -> forall f h b, small62 h ->
+  match go_Deque_Clear_loop1 (S f) t m (h, b) with
+  | Ok (inl (h', b')) => h' = t /\ clear_loop 0 f b h t m = Some b'
+  | Ok (inr _) => False
+  | Panic => clear_loop 0 f b h t m = None
+  | OutOfFuel => clear_loop 0 f b h t m = None
+  end.
+Proof.
+  intros Hm. unfold small62. change (2 ^ 62) with 4611686018427387904 in *.
+  change (2 ^ 61) with 2305843009213693952 in *.
+  unfold go_Deque_Clear_loop1.
+  induction f as [|f IH]; intros h b Hh; rewrite go_loop_S; unfold go_Deque_Clear_loop1_body at 1.
+  - cbn [clear_loop]. destruct (Z.eqb_spec h t) as [->|Hne]; cbn [negb]; [split; reflexivity|].
+    rewrite setz_update. destruct (setz b h 0); reflexivity.
+  - cbn [clear_loop]. destruct (Z.eqb_spec h t) as [->|Hne]; cbn [negb]; [split; reflexivity|].
+    rewrite setz_update. unfold Model.bind. destruct (setz b h 0) as [b1|]; [|reflexivity]. cbn [bind].
+    rewrite (wrap64 (h + 1)) by lia.
+    pose proof (land_m_range m Hm (h + 1)).
+    apply IH. lia.
+Qed.
+
+(* one call on the deque [d], made with the translated methods on d's fields; the fields the
+   source assigned are put back in the place the translation returns them.  Clear runs its
+   loop for at most len(q.buf)+1 iterations (as the model does), Rotate for |count| *)
+Definition go_step (d : @deque Z) (o : op Z) : outcome (@deque Z * out Z) :=
+  match o with
+  | PushBack a =>
+      bind (go_Deque_PushBack (minCap d) (buf d) (head d) (tail d) (count d) a)
+           (fun '(m, b, h, t, c) => Ok (mkDeque b h t c m, ONone))
+  | PushFront a =>
+      bind (go_Deque_PushFront (minCap d) (buf d) (head d) (tail d) (count d) a)
+           (fun '(m, b, h, t, c) => Ok (mkDeque b h t c m, ONone))
+  | PopFront =>
+      bind (go_Deque_PopFront (buf d) (head d) (count d) (tail d) (minCap d))
+           (fun '(v, b, h, c, t) => Ok (mkDeque b h t c (minCap d), OVal v))
+  | PopBack =>
+      bind (go_Deque_PopBack (tail d) (buf d) (count d) (head d) (minCap d))
+           (fun '(v, t, b, c, h) => Ok (mkDeque b h t c (minCap d), OVal v))
+  | Front => bind (go_Deque_Front (count d) (buf d) (head d)) (fun v => Ok (d, OVal v))
+  | Back => bind (go_Deque_Back (count d) (buf d) (tail d)) (fun v => Ok (d, OVal v))
+  | At i => bind (go_Deque_At (count d) (buf d) (head d) i) (fun v => Ok (d, OVal v))
+  | SetAt i a =>
+      bind (go_Deque_Set (buf d) (count d) (head d) i a)
+           (fun b => Ok (mkDeque b (head d) (tail d) (count d) (minCap d), ONone))
+  | Clear =>
+      bind (go_Deque_Clear (S (S (length (buf d)))) (buf d) (head d) (tail d) (count d))
+           (fun '(b, h, t, c) => Ok (mkDeque b h t c (minCap d), ONone))
+  | Rotate n =>
+      bind (go_Deque_Rotate_prefix (S (Z.to_nat (Z.abs (count d)))) (head d) (tail d) (buf d) (count d) n)
+           (fun r => let '(h, t, b) := rot_state r in Ok (mkDeque b h t (count d) (minCap d), ONone))
+  | SetMinCap e =>
+      Ok (mkDeque (buf d) (head d) (tail d) (count d) (go_Deque_SetMinCapacity (minCap d) e), ONone)
+  end.
+
+(* the arguments are Go values of their types (int, uint); Rotate's tie is for an allocated buffer *)
+Definition arg_ok (d : @deque Z) (o : op Z) : Prop :=
+  match o with
+  | At i | SetAt i _ => - 2 ^ 63 <= i < 2 ^ 63
+  | Rotate n => - 2 ^ 63 <= n < 2 ^ 63 /\ 0 < cap d
+  | SetMinCap e => 0 <= e
+  | _ => True
+  end.
+
+Lemma eta_deque (d : @deque Z) : mkDeque (buf d) (head d) (tail d) (count d) (minCap d) = d.
+Proof. destruct d; reflexivity. Qed.
+
+Lemma src_step (d : @deque Z) (o : op Z) :
+  cap d < 2 ^ 62 -> minCap d < 2 ^ 62 -> small61 (count d) -> small61 (head d) -> small61 (tail d) ->
+  arg_ok d o ->
+  match go_step d o with
+  | Ok r => Model.step 0 d o = r
+  | Panic => Model.step 0 d o = (d, OPanic) \/ Model.step 0 d o = (d, OCrash)
+  | OutOfFuel => Model.step 0 d o = (d, OCrash)
+  end.
+Proof.
+  intros Hc Hm Hn Hh Ht Ha.
+  destruct o as [a|a| | | | |i|i a| |n|e]; unfold go_step, Model.step, crash_or.
+  - rewrite src_push_back by assumption.
+    destruct (push_back 0 d a) as [d'|]; cbn; [rewrite eta_deque; reflexivity|right; reflexivity].
+  - rewrite src_push_front by assumption.
+    destruct (push_front 0 d a) as [d'|]; cbn; [rewrite eta_deque; reflexivity|right; reflexivity].
+  - destruct (Z.leb_spec (count d) 0) as [Hle|Hgt].
+    + unfold go_Deque_PopFront. replace (count d <=? 0) with true by (symmetry; apply Z.leb_le; lia).
+      left; reflexivity.
+    + rewrite src_pop_front by assumption.
+      pose proof (fun d' d2 H => proj2 (shrink_keeps d' d2 H)) as K.
+      destruct (pop_front 0 d) as [[d2 v]|] eqn:E; cbn; [|right; reflexivity].
+      replace (minCap d) with (minCap d2); [rewrite eta_deque; reflexivity|].
+      revert E. unfold pop_front, Model.bind. destruct (getz _ _); [|discriminate].
+      destruct (setz _ _ _); [|discriminate].
+      destruct (shrink_if_excess 0 _) as [d3|] eqn:S3; [|discriminate].
+      intros E. injection E as <- _. exact (K _ _ S3).
+  - destruct (Z.leb_spec (count d) 0) as [Hle|Hgt].
+    + unfold go_Deque_PopBack. replace (count d <=? 0) with true by (symmetry; apply Z.leb_le; lia).
+      left; reflexivity.
+    + rewrite src_pop_back by assumption.
+      pose proof (fun d' d2 H => proj2 (shrink_keeps d' d2 H)) as K.
+      destruct (pop_back 0 d) as [[d2 v]|] eqn:E; cbn; [|right; reflexivity].
+      replace (minCap d) with (minCap d2); [rewrite eta_deque; reflexivity|].
+      revert E. unfold pop_back, Model.bind. cbv zeta. destruct (getz _ _); [|discriminate].
+      destruct (setz _ _ _); [|discriminate].
+      destruct (shrink_if_excess 0 _) as [d3|] eqn:S3; [|discriminate].
+      intros E. injection E as <- _. exact (K _ _ S3).
+  - unfold go_Deque_Front. destruct (count d <=? 0); [left; reflexivity|].
+    rewrite getz_index. destruct (getz (buf d) (head d)); cbn; [reflexivity|right; reflexivity].
+  - unfold go_Deque_Back. destruct (count d <=? 0); [left; reflexivity|].
+    unfold small61 in *. change (2 ^ 62) with 4611686018427387904 in *. change (2 ^ 61) with 2305843009213693952 in *.
+    rewrite cap_len, (src_prev d (tail d)) by (change (2 ^ 63) with 9223372036854775808; lia).
+    rewrite getz_index. destruct (getz (buf d) (prev d (tail d))); cbn; [reflexivity|right; reflexivity].
+  - unfold go_Deque_At. destruct ((i <? 0) || (i >=? count d)) eqn:G; [left; reflexivity|].
+    apply orb_false_elim in G. destruct G as [G1 G2]. apply Z.ltb_ge in G1. rewrite Z.geb_leb in G2. apply Z.leb_gt in G2.
+    pose proof (cap_range d).
+    unfold small61 in *. change (2 ^ 62) with 4611686018427387904 in *. change (2 ^ 61) with 2305843009213693952 in *.
+    rewrite cap_len, (wrap64 (head d + i)), (wrap64 (cap d - 1)) by lia. fold (mask d (head d + i)).
+    rewrite getz_index. destruct (getz (buf d) (mask d (head d + i))); cbn; [reflexivity|right; reflexivity].
+  - unfold go_Deque_Set. destruct ((i <? 0) || (i >=? count d)) eqn:G; [left; reflexivity|].
+    apply orb_false_elim in G. destruct G as [G1 G2]. apply Z.ltb_ge in G1. rewrite Z.geb_leb in G2. apply Z.leb_gt in G2.
+    pose proof (cap_range d).
+    unfold small61 in *. change (2 ^ 62) with 4611686018427387904 in *. change (2 ^ 61) with 2305843009213693952 in *.
+    rewrite cap_len, (wrap64 (head d + i)), (wrap64 (cap d - 1)) by lia. fold (mask d (head d + i)).
+    rewrite setz_update. destruct (setz (buf d) (mask d (head d + i)) a); cbn; [reflexivity|right; reflexivity].
+  - unfold go_Deque_Clear, clear. cbv zeta.
+    pose proof (cap_range d).
+    unfold small61 in *. change (2 ^ 62) with 4611686018427387904 in *. change (2 ^ 61) with 2305843009213693952 in *.
+    rewrite cap_len, (wrap64 (cap d - 1)) by lia.
+    destruct (Z.eq_dec (cap d) 0) as [C0|C0].
+    + (* no buffer: modBits = -1, and the first write, if any, is out of range *)
+      assert (B : buf d = nil).
+      { destruct d as [[|x b] ? ? ? ?]; [reflexivity|]. unfold cap, zlen in C0. cbn in C0. lia. }
+      rewrite B. cbn [length]. unfold go_Deque_Clear_loop1. rewrite go_loop_S.
+      unfold go_Deque_Clear_loop1_body. cbn [clear_loop]. rewrite setz_update.
+      assert (N : setz (@nil Z) (head d) 0 = None).
+      { unfold setz, zlen. cbn [length]. destruct (Z.leb_spec 0 (head d)), (Z.ltb_spec (head d) (Z.of_nat 0));
+          cbn; try reflexivity; lia. }
+      rewrite N. destruct (head d =? tail d); cbn; [reflexivity|right; reflexivity].
+    + assert (Hmm : 0 <= cap d - 1 < 2 ^ 62) by (change (2 ^ 62) with 4611686018427387904; lia).
+      pose proof (clear_loop_spec (cap d - 1) (tail d) Hmm (S (length (buf d))) (head d) (buf d)) as L.
+      destruct (go_Deque_Clear_loop1 _ _ _ _) as [[[h' b']|x]| |].
+      * destruct L as [_ ->]; [unfold small62; change (2 ^ 62) with 4611686018427387904; lia|]. reflexivity.
+      * exfalso. apply L. unfold small62; change (2 ^ 62) with 4611686018427387904; lia.
+      * rewrite L by (unfold small62; change (2 ^ 62) with 4611686018427387904; lia). right; reflexivity.
+      * rewrite L by (unfold small62; change (2 ^ 62) with 4611686018427387904; lia). reflexivity.
+  - destruct Ha as [Hn0 Hcap].
+    unfold small61 in *. change (2 ^ 61) with 2305843009213693952 in *.
+    pose proof (src_rotate d n (S (Z.to_nat (Z.abs (count d))))) as R.
+    unfold small62 in R. change (2 ^ 62) with 4611686018427387904 in *.
+    specialize (R ltac:(lia) ltac:(lia) Hn0 ltac:(lia) ltac:(lia) ltac:(lia)).
+    destruct (go_Deque_Rotate_prefix _ _ _ _ _ _) as [r| |]; cbn [bind].
+    + destruct (rot_state r) as [[h t] b]. rewrite R. reflexivity.
+    + rewrite R. right; reflexivity.
+    + contradiction.
+  - rewrite src_set_min_cap by exact Ha. reflexivity.
+Qed.
